@@ -305,3 +305,25 @@ func SortedSet(xs []string) []string {
 	sort.Strings(out)
 	return out
 }
+
+// SigV2EvaluatesInvalidTuple: the weighted-graph Check engine evaluates the
+// condition of a stored tuple that is NOT valid for the model (e.g. a userset
+// user on a tupleset relation, left over from another model) instead of
+// ignoring the tuple, and fails the request with a condition-evaluation error
+// (validation class, so the server does not fall back to the default engine).
+const SigV2EvaluatesInvalidTuple = "C03/weighted-engine-evaluates-condition-of-invalid-stored-tuple"
+
+// ClassifyV2Error recognises that signature: the request failed with a
+// condition-evaluation error although no VALID tuple has an unevaluable
+// condition, and some invalid stored tuple carries a condition.
+func ClassifyV2Error(w gen.World, err error, validUnknown bool) string {
+	if !IsConditionError(err) || validUnknown {
+		return ""
+	}
+	for _, t := range w.Left {
+		if t.Cond != "" {
+			return SigV2EvaluatesInvalidTuple
+		}
+	}
+	return ""
+}
